@@ -5,6 +5,9 @@ ASSUMPTIONS = ["decoder read() contract: returns <= max_read bytes, 0 = end/fail
                "memcpy modelled by a byte loop"]
 U = ["lib/lha_decoder.c", "lib/crc16.c"]
 HARNESSES = [
+    dict(name="decread.b4", src="C09/decread.c", defines=["BUFLEN=4"], unwind=8, unwindset={"lha_decoder_read.0": 7, "lha_crc16_buf.0": 6, "verif_memcpy.0": 5}, extra_srcs=["lib/crc16.c"], optional_witnesses=True,
+         units=["lib/lha_decoder.c:lha_decoder_read"], timeout=300, mem_gb=4, bounds="inductive step: arbitrary bookkeeping state (declared length any 32-bit value), 4-byte request, method read() returning any count <= max_read",
+         stubs=["method read(): arbitrary count <= max_read"]),
     dict(name="split.c2r2", src="C14/split.c", defines=["CH=2", "MAXCH=2", "RD=2"], unwind=9, units=U, timeout=300, mem_gb=4,
          bounds="2 chunks x <=2 bytes, 2 reads of size 0..7, declared length 0..6, monitor attached before any read"),
     dict(name="split.c3r3", src="C14/split.c", defines=["CH=3", "MAXCH=2", "RD=3"], unwind=11, units=U, timeout=2400, mem_gb=8, tier="thorough",
